@@ -67,6 +67,16 @@ fn report_json(v: &Violation, stats: &RunStats, harness_error: bool) -> J {
 /// Ends the process: 3 = violation report written, 2 = harness error.
 fn fatal_handler(v: &Violation, st: &State, harness_error: bool) -> ! {
     let stats = RunStats::from_state(st);
+    // a thread of the code under test that panicked usually leaves its peers waiting: report
+    // the panic, not the hang it caused
+    let lib_panic = PANICS
+        .lock()
+        .ok()
+        .and_then(|p| p.iter().find(|(loc, _)| !(loc.starts_with("src/") || loc.contains("/verif/sim/"))).cloned());
+    if let (Some((loc, msg)), false) = (lib_panic, harness_error) {
+        let v2 = Violation::new(&v.prop, "panic", loc.clone(), format!("panic at {loc}: {msg} (then: {} {})", v.clause, v.keys));
+        fatal_with_stats(&v2, &stats, false)
+    }
     fatal_with_stats(v, &stats, harness_error)
 }
 
